@@ -21,7 +21,15 @@ let chunks_of (body : n list) (ends : int list) : n list list =
 let lim_of_mem mem = if mem < 0 then 0 else mem
 let file_txt (f : pfile) =
   " " ^ hex_of_bytes (f_name f) ^ " " ^ hex_of_bytes (f_filename f) ^ " " ^ hex_of_bytes (f_mime f) ^ " " ^ hex_of_bytes (List.rev (f_rdata f))
-let spilled lim (f : pfile) = if int_of_n (f_size f) > lim then 1 else 0
+(* resource model (coq/C12/ResDefs.v): (open descriptors, directory entries) at the four observation points *)
+let pr (a, b) = (int_of_n a, int_of_n b)
+let parse_acts (s : string) : act list =
+  if s = "-" || s = "" then [] else
+  List.filter_map (fun a ->
+    if String.length a < 2 then None else
+    let k = nat_of_int (int_of_string (String.sub a 1 (String.length a - 1))) in
+    match a.[0] with 'c' -> Some (AClose k) | 's' -> Some (ASave k) | 'p' -> Some (APerm k) | 'k' -> Some (AKeep k) | _ -> None)
+    (String.split_on_char '.' s)
 let status_txt = function PEof -> "eof" | PError -> "error" | PIncomplete -> "incomplete" | PEarlyEof -> "earlyeof" | PFuel -> "MODEL-FUEL"
 let tev_txt = function TM -> "M" | TP k -> "P" ^ string_of_int (int_of_n k) | TR k -> "R" ^ string_of_int (int_of_n k)
   | TC -> "C" | TE -> "E" | TX -> "X"
@@ -35,36 +43,54 @@ let run mem key body ends =
   let ((stt, s), rtr) = drive bnd init_state (chunks_of body ends) [] in
   let files = List.rev (rfiles s) in
   let lim = lim_of_mem mem in
-  let alive = List.fold_left (fun a f -> a + spilled lim f) 0 files + (if ready s then spilled lim (cur s) else 0) in
+  (* whatever the status: the parser with its files is dropped here, as an aborted request drops it *)
+  let lc = lifecycle (n_of_int lim) files (if ready s then Some (cur s) else None) HAborted in
+  let (fd_alive, alive) = pr (l_start lc) in
+  let (fd_after, after) = pr (l_destroyed lc) in
+  let alive = if fd_alive <> alive || fd_after <> 0 || after <> 0 then -1 else alive in
   (status_txt stt, List.length files, String.concat "" (List.map file_txt files), cur_txt s, alive,
    (if rtr = [] then "-" else String.concat "," (List.rev_map tev_txt rtr)))
 let cls s = if s = "earlyeof" then "error" else s
 (* the request through the whole service (harness/C12_service.cpp) *)
 let entry_txt (f : pfile) = hex_of_bytes (f_name f) ^ "," ^ hex_of_bytes (f_filename f) ^ "," ^ hex_of_bytes (f_mime f) ^ "," ^ hex_of_bytes (List.rev (f_rdata f))
-let run_rq mode cl mp mem declared ct body =
+let run_rq ?(rf=false) ?(acts="-") mode cl mp mem declared ct body =
   let l = { content_length_limit = n_of_int cl; multipart_limit = n_of_int mp } in
-  let r = request_service l (mode = "r") ct (nat_of_int declared) body in
+  let ab = if mode.[0] = 'a' then int_of_string (String.sub mode 1 (String.length mode - 1)) else 0 in
+  let r = if mode.[0] = 'a' then request_service_ab l (n_of_int ab) ct (nat_of_int declared) body
+          else request_service l (mode = "r") ct (nat_of_int declared) body in
   let st = int_of_n r.sv_status in
-  let filt = declared > 0 && (mode = "m" || mode = "r") in
+  let filt = declared > 0 && (mode = "m" || mode = "r" || mode.[0] = 'a') in
   let pairs = List.map (fun (k, v) -> hex_of_bytes k ^ "=" ^ hex_of_bytes v) (deliver_post r.sv_entries @ r.sv_pairs) in
   let pairs = List.sort compare pairs in
   let files = List.map entry_txt (deliver_files r.sv_entries) in
   let fv = r.sv_fev in
   let rd = List.rev_map entry_txt fv.rreadyd in
-  let is_m = mode = "m" in
-  let spilled = List.length (List.filter (fun f -> int_of_n (f_size f) > mem) (deliver_files r.sv_entries)) in
-  Printf.sprintf "rq %s P %d%s F %d%s L new=%d ready=%d%s end=%d err=%d raw=%s tmp=%d,0"
+  let is_m = mode = "m" || mode.[0] = 'a' in
+  let lc = if st = 200 then lifecycle (n_of_int mem) r.sv_entries None (HReady (parse_acts acts))
+           else lifecycle (n_of_int mem) [] None HRefused in
+  let (o1, d1) = if st = 200 then pr (l_start lc) else (0, 0) in
+  let (o2, d2) = if st = 200 then pr (l_app_end lc) else (0, 0) in
+  let (o3, d3) = pr (l_destroyed lc) in
+  let (o4, d4) = pr (l_released lc) in
+  Printf.sprintf "%s %s P %d%s F %d%s L new=%d ready=%d%s end=%d err=%d raw=%s tmp=%d,%d fd=%d,%d%s" (if rf then "rf" else "rq")
     (if st = 0 then "none" else if st = 599 then "MODEL-FUEL" else string_of_int st)
     (List.length pairs) (String.concat "" (List.map (fun x -> " " ^ x) pairs))
     (List.length files) (String.concat "" (List.map (fun x -> " " ^ x) files))
     (if is_m then int_of_n fv.n_new else 0)
     (if is_m then List.length rd else 0) (if is_m && rd <> [] then ":" ^ String.concat ";" rd else "")
-    (if filt && st = 200 then 1 else 0) (if filt && st <> 200 then 1 else 0)
+    (if filt && st = 200 then 1 else 0) (if filt && st <> 200 && st <> 403 then 1 else 0)
     (hex_of_bytes (if mode = "r" && st <> 413 then r.sv_raw else []))
-    (if st = 200 then spilled else 0)
+    d1 d4 o1 o4
+    (if rf then Printf.sprintf " R %d,%d;%d,%d" o2 d2 o3 d3 else "")
 let () = main_loop (fun toks -> match (match toks with
     | ["mp"; a; b; c; d; _] -> ["mp"; a; b; c; d] | ["all2"; a; b; c; _] -> ["all2"; a; b; c]
-    | ["rq"; a; b; c; d; e; f; g; h; i; _] -> ["rq"; a; b; c; d; e; f; g; h; i] | t -> t) with
+    | ["rq"; a; b; c; d; e; f; g; h; i; _] -> ["rq"; a; b; c; d; e; f; g; h; i]
+    | ["rf"; a; b; c; d; e; f; g; h; i; j; _] -> ["rf"; a; b; c; d; e; f; g; h; i; j] | t -> t) with
+  | ["gq"; q] | ["gq"; q; _] ->
+      let pairs = List.sort compare (List.map (fun (k, v) -> hex_of_bytes k ^ "=" ^ hex_of_bytes v) (get_query (bytes_of_hex q))) in
+      Printf.sprintf "gq 200 G %d%s" (List.length pairs) (String.concat "" (List.map (fun x -> " " ^ x) pairs))
+  | ["rf"; mode; cl; mp; mem; _; declared; ct; _; body; acts] ->
+      run_rq ~rf:true ~acts mode (int_of_string cl) (int_of_string mp) (int_of_string mem) (int_of_string declared) (bytes_of_hex ct) (bytes_of_hex body)
   | ["rq"; mode; cl; mp; mem; _; declared; ct; _; body] ->
       run_rq mode (int_of_string cl) (int_of_string mp) (int_of_string mem) (int_of_string declared) (bytes_of_hex ct) (bytes_of_hex body)
   | ["mp"; mem; ct; cuts; body] ->
@@ -75,7 +101,7 @@ let () = main_loop (fun toks -> match (match toks with
        | FOk key ->
            let n = List.length body in
            let (stt, nf, ft, ct, alive, tr) = run mem key body (parse_cuts cuts n) in
-           Printf.sprintf "mp %s %d%s cur=%s T %s tmp=%d,0" stt nf ft ct tr alive
+           Printf.sprintf "mp %s %d%s cur=%s T %s tmp=%d,0 fd=%d,0" stt nf ft ct tr alive alive
        | _ -> "mp MODEL-FUEL")
   | ["all2"; mem; ct; body] ->
       let mem = int_of_string mem in
@@ -90,7 +116,7 @@ let () = main_loop (fun toks -> match (match toks with
              let (stt', nf', ft', ct', alive', _) = run mem key body [k; n] in
              if cls stt' <> cls stt || nf' <> nf || ft' <> ft || ct' <> ct || alive' <> alive then diff := string_of_int k :: !diff
            done;
-           Printf.sprintf "all2 %d %s %d%s cur=%s tmp=%d D %s leaks=0" (if n > 0 then n - 1 else 0) stt nf ft ct alive
+           Printf.sprintf "all2 %d %s %d%s cur=%s tmp=%d fd=%d D %s leaks=0" (if n > 0 then n - 1 else 0) stt nf ft ct alive alive
              (if !diff = [] then "-" else String.concat "," (List.rev !diff))
        | _ -> "all2 MODEL-FUEL")
   | _ -> "BAD-CASE")
